@@ -866,6 +866,200 @@ func c13genLru(r *verifhlib.Rng, maxLen int, timed bool) (size int, ttl time.Dur
 	return
 }
 
+// ------------------------------------------------------------------ stream 4: lock-convoy pairs
+
+// c13convoy holds the structure's mutex, starts two calls, lets them queue on the lock, releases it
+// and waits. If they have not queued yet they simply run one after the other, which is still a
+// legal linearisation: the verdict never depends on the timing.
+func c13convoy(lock, unlock func(), fa, fb func() string) (string, string) {
+	var ra, rb string
+	var wg sync.WaitGroup
+	started := make(chan struct{}, 2)
+	lock()
+	wg.Add(2)
+	go func() { defer wg.Done(); started <- struct{}{}; ra = fa() }()
+	go func() { defer wg.Done(); started <- struct{}{}; rb = fb() }()
+	<-started
+	<-started
+	time.Sleep(4 * time.Millisecond)
+	unlock()
+	wg.Wait()
+	return ra, rb
+}
+
+type c13half struct {
+	op, kind string
+	call     func() string
+}
+
+// one convoy case on a stand-alone BlobMemoryCache: a sequential prefix that leaves entries and
+// outstanding reservations (so that a double decrement cannot hide behind the clamp at 0), then a pair
+func c13cachePair(r *verifhlib.Rng, which int) (coq string, kind string, hist []string) {
+	max := uint64([]int{100, 1000, 1000}[r.Intn(3)])
+	unit := max / 10
+	rec := &c13rec{}
+	var clk int64
+	d := &c13cacheDrv{c: cache.NewBlobMemoryCache(cache.BlobMemoryCacheConfig{MaxSize: max}, tally.NoopScope),
+		rec: rec, name: c13rawName, id: c13rawID, pend: map[uint64]*c13pend{}, nowMs: func() int64 { return clk }}
+	var nextT uint64 = 1
+	newT := func() uint64 { t := nextT; nextT++; return t }
+	entry := func(name, sz uint64) { // a caller that completes: entry `name` of sz bytes
+		t := newT()
+		if d.reserve(t, name, sz) {
+			d.end(t, false, sz)
+		}
+	}
+	hold := func(name, sz uint64) uint64 { // a caller that stays in flight
+		t := newT()
+		d.reserve(t, name, sz)
+		return t
+	}
+	remove := func(n uint64) c13half {
+		return c13half{fmt.Sprintf("A (PRaw (CRemove %d))", n), "Remove", func() string { d.c.Remove(c13rawName(n)); return "OUnit" }}
+	}
+	batch := func(ns ...uint64) c13half {
+		ss, cs := make([]string, len(ns)), make([]string, len(ns))
+		for i, n := range ns {
+			ss[i], cs[i] = c13rawName(n), verifhlib.U(n)
+		}
+		return c13half{"A (PRaw (CRemoveBatch " + verifhlib.List(cs) + "))", "RemoveBatch", func() string { d.c.RemoveBatch(ss); return "OUnit" }}
+	}
+	reserve := func(name, sz uint64) c13half {
+		t := newT()
+		return c13half{fmt.Sprintf("A (PReserve %d %d %d)", t, name, sz), "PReserve", func() string { return c13bool(d.c.TryReserve(sz)) }}
+	}
+	add := func(t uint64) c13half { // caller t (holding a reservation) adds its entry
+		p := *d.pend[t]
+		e := &cache.MemoryEntry{Name: c13rawName(p.name), Data: make([]byte, p.sz), CreatedAt: c13at(clk)}
+		return c13half{fmt.Sprintf("A (PEnd %d (WData %d) %s)", t, p.sz, c13z(clk)), "PEnd", func() string { return c13bool(d.c.Add(e)) }}
+	}
+	giveUp := func(t uint64) c13half { // caller t's write failed: release
+		p := *d.pend[t]
+		return c13half{fmt.Sprintf("A (PEnd %d WErr %s)", t, c13z(clk)), "PEnd", func() string { d.c.ReleaseReservation(p.sz); return "OBool false" }}
+	}
+	// background: one in-flight reservation and one unrelated entry, sized so that everything fits
+	hold(7, unit*uint64(r.Range(1, 3)))
+	if r.Bool() {
+		entry(8, unit*uint64(r.Range(0, 1))+uint64(r.Intn(3)))
+	}
+	sz := unit*uint64(r.Range(1, 2)) + uint64(r.Intn(3))
+	var a, b c13half
+	switch which {
+	case 0:
+		kind = "pair-remove-remove"
+		entry(1, sz)
+		a, b = remove(1), remove(1)
+	case 1:
+		kind = "pair-remove-batch"
+		entry(1, sz)
+		entry(2, unit)
+		a, b = remove(1), batch(2, 1, 9)
+	case 2:
+		kind = "pair-batch-batch"
+		entry(1, sz)
+		entry(2, unit)
+		a, b = batch(1, 2), batch(2, 1)
+	case 3:
+		kind = "pair-add-add"
+		t1, t2 := hold(1, sz), hold(1, sz)
+		if d.pend[t1] == nil || d.pend[t2] == nil {
+			return "", "", nil
+		}
+		a, b = add(t1), add(t2)
+	case 4:
+		kind = "pair-add-remove"
+		if r.Bool() {
+			entry(1, sz)
+		}
+		t1 := hold(1, sz)
+		if d.pend[t1] == nil {
+			return "", "", nil
+		}
+		a, b = add(t1), remove(1)
+	case 5:
+		kind = "pair-reserve-reserve"
+		free := max - d.c.TotalBytes()
+		want := free/2 + 1 + uint64(r.Intn(2)) // two of these do not fit, one does
+		a, b = reserve(1, want), reserve(2, want)
+	case 6:
+		kind = "pair-release-reserve"
+		t1 := hold(1, sz)
+		if d.pend[t1] == nil {
+			return "", "", nil
+		}
+		free := max - d.c.TotalBytes()
+		a, b = giveUp(t1), reserve(2, free+1+uint64(r.Intn(int(sz)))) // fits only after the release
+	default:
+		kind = "pair-remove-reserve"
+		entry(1, sz)
+		free := max - d.c.TotalBytes()
+		a, b = remove(1), reserve(2, free+1)
+	}
+	pre, preobs := verifhlib.List(rec.ops), verifhlib.List(rec.obs)
+	ra, rb := c13convoy(d.c.VerifLock, d.c.VerifUnlock, a.call, b.call)
+	coq = fmt.Sprintf("CaseCP %d %s %s (%s) (%s) (%s) (%s) %s", max, pre, preobs, a.op, b.op, ra, rb, d.snap().coq())
+	hist = append(append([]string{}, rec.hist...), "pair:"+a.kind, "pair:"+b.kind)
+	return
+}
+
+func c13lruPair(r *verifhlib.Rng, which int) (coq string, kind string, hist []string) {
+	size := r.Range(1, 3)
+	nKeys := size + 3
+	c := cache.NewLRUCache(cache.LRUCacheConfig{Size: size, TTL: time.Hour})
+	start := time.Now()
+	us := func() int64 { return int64(time.Since(start) / time.Microsecond) }
+	key := func(k int) string { return fmt.Sprintf("k%d", k) }
+	snap := func() string {
+		n := c.Size()
+		var live []string
+		for k := 0; k < nKeys; k++ {
+			if c.Has(key(k)) {
+				live = append(live, fmt.Sprint(k))
+			}
+		}
+		return fmt.Sprintf("(%d, %s)", n, verifhlib.List(live))
+	}
+	var sops, sobs []string
+	for i, n := 0, r.Range(0, size+1); i < n; i++ { // prefix: a few adds
+		k := r.Intn(nKeys - 1)
+		lo := us()
+		c.Add(key(k))
+		sops = append(sops, fmt.Sprintf("(LAdd %d %s, %s)", k, c13z(lo), c13z(lo)))
+		sobs = append(sobs, fmt.Sprintf("(OUnit, %s)", snap()))
+		hist = append(hist, "Ladd")
+	}
+	now := us()
+	add := func(k int) c13half {
+		return c13half{fmt.Sprintf("LAdd %d %s", k, c13z(now)), "Ladd", func() string { c.Add(key(k)); return "OUnit" }}
+	}
+	del := func(k int) c13half {
+		return c13half{fmt.Sprintf("LDelete %d", k), "Ldelete", func() string { c.Delete(key(k)); return "OUnit" }}
+	}
+	has := func(k int) c13half {
+		return c13half{fmt.Sprintf("LHas %d %s", k, c13z(now)), "Lhas", func() string { return c13bool(c.Has(key(k))) }}
+	}
+	k1, k2 := r.Intn(nKeys-1), nKeys-1
+	var a, b c13half
+	switch which {
+	case 0:
+		kind, a, b = "lpair-add-add-same", add(k1), add(k1)
+	case 1:
+		kind, a, b = "lpair-add-add-new", add(k1), add(k2)
+	case 2:
+		kind, a, b = "lpair-add-delete", add(k1), del(k1)
+	case 3:
+		kind, a, b = "lpair-delete-delete", del(k1), del(k1)
+	default:
+		kind, a, b = "lpair-add-has", add(k2), has(k1)
+	}
+	ra, rb := c13convoy(c.VerifLock, c.VerifUnlock, a.call, b.call)
+	at := us()
+	coq = fmt.Sprintf("CaseLP %s %s %s %s (%s) (%s) %s (%s) (%s) %s", c13z(int64(size)), c13z(int64(time.Hour/time.Microsecond)),
+		verifhlib.List(sops), verifhlib.List(sobs), a.op, b.op, c13z(at), ra, rb, snap())
+	hist = append(hist, "pair:"+a.kind, "pair:"+b.kind)
+	return
+}
+
 // ------------------------------------------------------------------ driver
 
 func c13driver(ctx *verifhlib.Ctx) {
@@ -929,6 +1123,22 @@ func c13driver(ctx *verifhlib.Ctx) {
 	emitLru(0, time.Hour, 4, []c13lop{{k: "add", key: 0}, {k: "add", key: 1}, {k: "add", key: 2}, {k: "size"}, {k: "has", key: 0}}, "seed-lru-default-size")
 	emitLru(2, 30*time.Millisecond, 4, []c13lop{{k: "add", key: 0}, {k: "sleep", sleep: 20 * time.Millisecond}, {k: "add", key: 1}, {k: "has", key: 0}, {k: "sleep", sleep: 20 * time.Millisecond}, {k: "has", key: 0}, {k: "has", key: 1}, {k: "size"}, {k: "add", key: 2}, {k: "size"}, {k: "sleep", sleep: 40 * time.Millisecond}, {k: "add", key: 3}, {k: "size"}}, "seed-lru-expiry")
 
+	// ---- lock-convoy pairs (every run): the atomic-lock-region assumption, checked instead of assumed
+	nPairs := 6
+	if thorough {
+		nPairs = 40
+	}
+	for round := 0; round < nPairs; round++ {
+		for which := 0; which < 8; which++ {
+			if coq, kind, hist := c13cachePair(r, which); coq != "" {
+				ctx.Emit(verifhlib.Case{Coq: coq, NT: true, Kind: kind, Hist: hist, Tags: []string{"convoy"}, Sample: map[string]string{"case": coq}})
+			}
+		}
+		for which := 0; which < 5; which++ {
+			coq, kind, hist := c13lruPair(r, which)
+			ctx.Emit(verifhlib.Case{Coq: coq, NT: true, Kind: kind, Hist: hist, Tags: []string{"convoy"}, Sample: map[string]string{"case": coq}})
+		}
+	}
 	// ---- generated
 	nRaw, nWt, nLru, nTimed := ctx.N*42/100, ctx.N*30/100, ctx.N*18/100, ctx.N*10/100
 	rawLen, wtLen, lruLen := 30, 12, 30
